@@ -55,12 +55,12 @@ Qed.
 
 Section WireProofs.
   Variable hstate : Type.
-  Variable compute : hstate -> request -> bool -> fat * hstate * list bytes.
+  Variable compute : hstate -> routed -> bool -> fat * hstate * list bytes.
   Variable cache_on : bool.
   Variable ims_on : bool.
   Variable parse_ims : bytes -> option Z.
   Variable sanitize_ok : request -> bool.
-  Variable prime : request -> request.
+  Variable prime : request -> routed.
   Variable negotiate : request -> fat -> option (N * bytes).
   Variable rules_of : bytes -> list rule.
   Variable dbg : bool.
@@ -83,18 +83,18 @@ Section WireProofs.
   Proof. unfold send_body. destruct (no_body_status (rp_status rp)); [intros H; contradiction H; reflexivity | auto]. Qed.
 
   (** a 304 goes out as it is, whatever the range header says *)
-  Lemma send_not_modified fixed r san rp :
+  Lemma send_not_modified fixed fix_ov q san rp :
     rp_status rp = 304 ->
-    sendX fixed r san rp = Ok (mkW 304 (package r (rp_headers rp)) [] (rp_last_modified rp)).
+    sendX fixed fix_ov q san rp = Ok (mkW 304 (package (fst q) (rp_headers rp)) [] (rp_last_modified rp)).
   Proof. intros H. unfold send_v, send_body. rewrite H. reflexivity. Qed.
 
   (** [send_keeps_vary]: whenever the response is not replaced — repaired code or not —, the [vary] header
       on the wire is the one [handle_cache] set, and a non-empty body on the wire comes from a non-empty body *)
-  Lemma send_keeps_vary_lemma fixed r san rp w :
-    package_keeps_vary -> sendX fixed r san rp = Ok w -> ~ replaced san rp ->
+  Lemma send_keeps_vary_lemma fixed fix_ov q san rp w :
+    package_keeps_vary -> sendX fixed fix_ov q san rp = Ok w -> ~ replaced san rp ->
     assoc (B "vary") (w_headers w) = assoc (B "vary") (rp_headers rp) /\ (w_body w <> [] -> rp_body rp <> []).
   Proof.
-    intros Hp E Hn. unfold send_v in E. destruct (rp_status rp =? 304) eqn:E304.
+    intros Hp E Hn. unfold send_v in E. cbv zeta in E. destruct (rp_status rp =? 304) eqn:E304.
     { inversion E; subst w. cbn [w_headers w_body]. rewrite Hp. split; [reflexivity | apply send_body_nonempty]. }
     destruct san as [rg|].
     - destruct (apply_range true rg (rp_status rp) (send_body rp)) as [x|e|] eqn:A.
@@ -107,13 +107,15 @@ Section WireProofs.
     - inversion E; subst w. cbn [w_headers w_body]. rewrite Hp. split; [reflexivity | apply send_body_nonempty].
   Qed.
 
-  (** the replacement: status 416, the error page, and — repaired code — the page's [vary] header *)
-  Lemma send_replaced_lemma r san rp w :
-    package_keeps_vary -> sendX true r san rp = Ok w -> replaced san rp ->
+  (** the replacement: status 416, the error page, and — repaired code — the [vary] header of the page: the rule headers
+      of the URI the replaced response was cached under (with [fix_ov = false]: of the request's own path) *)
+  Lemma send_replaced_lemma fix_ov q san rp w :
+    package_keeps_vary -> sendX true fix_ov q san rp = Ok w -> replaced san rp ->
     w_status w = 416 /\ w_body w = err416_body /\
-    (err416_body <> [] -> assoc (B "vary") (w_headers w) = Some (vary_text (rules_of (rq_path r)))).
+    (err416_body <> [] ->
+     assoc (B "vary") (w_headers w) = Some (vary_text (rules_of (if fix_ov then cpath q else rq_path (fst q))))).
   Proof.
-    intros Hp E (rg & e & -> & E304 & A). unfold send_v in E. rewrite E304, A in E. inversion E; subst w.
+    intros Hp E (rg & e & -> & E304 & A). unfold send_v in E. cbv zeta in E. rewrite E304, A in E. inversion E; subst w.
     cbn [w_status w_body w_headers]. split; [reflexivity|]. split; [reflexivity|].
     intros Hb. rewrite Hp. apply apply_header_settings. exact Hb.
   Qed.
@@ -122,23 +124,23 @@ Section WireProofs.
   Notation runX := (runV hstate compute cache_on ims_on parse_ims sanitize_ok prime negotiate rules_of dbg).
 
   (** what [vary_served_for_equal_tuple] says of a reply is enough *)
-  Lemma served_reply_vary r rp calls :
-    served_ok hstate compute ims_on negotiate rules_of r rp calls ->
-    rp_body rp <> [] -> assoc (B "vary") (rp_headers rp) = Some (vary_text (rules_of (rq_path r))).
+  Lemma served_reply_vary q rp calls :
+    served_ok hstate compute ims_on negotiate rules_of q rp calls ->
+    rp_body rp <> [] -> assoc (B "vary") (rp_headers rp) = Some (vary_text (rules_of (cpath q))).
   Proof.
     intros [[_ (f & r1 & _ & _ & _ & [(_ & Hb & _) | ->])] | [_ (f & lm & cached & _ & ->)]] Hne.
     - congruence.
-    - apply (proj1 (finishV_vary negotiate rules_of r f ims_on true)). exact Hne.
-    - apply (proj1 (finishV_vary negotiate rules_of r f lm cached)). exact Hne.
+    - apply (proj1 (finishV_vary negotiate rules_of (fst q) (lreq q) f ims_on true)). exact Hne.
+    - apply (proj1 (finishV_vary negotiate rules_of (fst q) (lreq q) f lm cached)). exact Hne.
   Qed.
 
   (** one request: every non-empty response on the wire advertises the page's [vary] value — whatever the
       sanitize verdict and the range, HEAD included (the header is there although the body is withheld) *)
-  Lemma wire_reply_vary r rp calls san w :
+  Lemma wire_reply_vary q rp calls san w :
     package_keeps_vary ->
-    served_ok hstate compute ims_on negotiate rules_of r rp calls ->
-    sendX true r san rp = Ok w -> w_body w <> [] ->
-    assoc (B "vary") (w_headers w) = Some (vary_text (rules_of (rq_path r))).
+    served_ok hstate compute ims_on negotiate rules_of q rp calls ->
+    sendX true true q san rp = Ok w -> w_body w <> [] ->
+    assoc (B "vary") (w_headers w) = Some (vary_text (rules_of (cpath q))).
   Proof.
     intros Hp Hs E Hne.
     assert (D : replaced san rp \/ ~ replaced san rp).
@@ -151,16 +153,16 @@ Section WireProofs.
         + right. intros (rg' & e & Heq & _ & A'). inversion Heq; subst. congruence.
       - right. intros (rg & e & Heq & _). discriminate. }
     destruct D as [Hr | Hn].
-    - destruct (send_replaced_lemma r san rp w Hp E Hr) as (_ & Hb & Hv). apply Hv. rewrite <- Hb. exact Hne.
-    - destruct (send_keeps_vary_lemma true r san rp w Hp E Hn) as (Hv & Hb). rewrite Hv.
-      apply (served_reply_vary r rp calls Hs). apply Hb. exact Hne.
+    - destruct (send_replaced_lemma true q san rp w Hp E Hr) as (_ & Hb & Hv). apply Hv. rewrite <- Hb. exact Hne.
+    - destruct (send_keeps_vary_lemma true true q san rp w Hp E Hn) as (Hv & Hb). rewrite Hv.
+      apply (served_reply_vary q rp calls Hs). apply Hb. exact Hne.
   Qed.
 
-  Definition wire_ok (o : op) (oc : obs * list request) : Prop :=
+  Definition wire_ok (o : op) (oc : obs * list routed) : Prop :=
     match o, fst oc with
     | OReq r0, ObReply rp _ =>
-        forall san w, sendX true (prime r0) san rp = Ok w -> w_body w <> [] ->
-                      assoc (B "vary") (w_headers w) = Some (vary_text (rules_of (rq_path (prime r0))))
+        forall san w, sendX true true (prime r0) san rp = Ok w -> w_body w <> [] ->
+                      assoc (B "vary") (w_headers w) = Some (vary_text (rules_of (cpath (prime r0))))
     | _, _ => True
     end.
 
@@ -211,18 +213,63 @@ Proof. split; vm_compute; reflexivity. Qed.
 
 (** the same at the level of [send_v]: for every page with a 416 page that is not empty there is a reply of
     [handle_cache] that the unrepaired [send] turns into a non-empty response without [vary] *)
-Lemma send_v0_drops_vary rules_of (err416_body : bytes) r :
+Lemma send_v0_drops_vary rules_of (err416_body : bytes) fix_ov q :
   err416_body <> [] ->
   exists rp w, rp_body rp <> [] /\
-    send_v rules_of (fun _ hs => hs) err416_body false r (Some (Some (100, 201)))
-           (finishV (fun _ _ => None) r (mkFat 200 [] (B "page") SP_FULL true) (own_tuple rules_of r) true true) = Ok w /\
-    rp = finishV (fun _ _ => None) r (mkFat 200 [] (B "page") SP_FULL true) (own_tuple rules_of r) true true /\
+    send_v rules_of (fun _ hs => hs) err416_body false fix_ov q (Some (Some (100, 201)))
+           (finishV (fun _ _ => None) (fst q) (mkFat 200 [] (B "page") SP_FULL true) (own_tuple rules_of (lreq q)) true true) = Ok w /\
+    rp = finishV (fun _ _ => None) (fst q) (mkFat 200 [] (B "page") SP_FULL true) (own_tuple rules_of (lreq q)) true true /\
     w_body w <> [] /\ assoc (B "vary") (w_headers w) = None.
 Proof.
   intros Hb. eexists; eexists. split; [|split; [reflexivity|split; [reflexivity|split]]].
   - cbn. discriminate.
   - cbn [w_body]. exact Hb.
   - reflexivity.
+Qed.
+
+(** ---- after 21f0154, before the repair 100c33a: the 416 page of an internal route lists the rule headers of the
+    request's own path (reproduced on the real code at fbca956) ---- *)
+(** host with the internal page /./lang (rule accept-language, lower-casing, default "en") and the public page /hi (rule
+    x-pub); a Prime extension answers /hi with /./lang:
+    GET /hi accept-language:de; GET /hi accept-language:de range: bytes=100-200 *)
+Definition wire416_route_history : xval :=
+  XL [ XL [ XL [XB (B "cache"); XN 1]; XL [XB (B "default_ext"); XN 0];
+            XL [XB (B "handlers"); XL [ XL [XB (B "/./lang"); XN 3; XN 200; XB (B "I"); XL []; XN 2; XN 0; XN 0; XN 1;
+                                          XL [XL [XB (B "accept-language"); XN 0; XB (B "en")]]];
+                                        XL [XB (B "/hi"); XN 3; XN 200; XB (B "P"); XL []; XN 2; XN 0; XN 0; XN 1;
+                                          XL [XL [XB (B "x-pub"); XN 0; XB (B "p")]]] ]];
+            XL [XB (B "vary"); XL [ XL [XB (B "/./lang"); XL [XL [XB (B "accept-language"); XN 0; XB (B "en")]]];
+                                    XL [XB (B "/hi"); XL [XL [XB (B "x-pub"); XN 0; XB (B "p")]]] ]];
+            XL [XB (B "report"); XL [XB (B "vary")]];
+            XL [XB (B "disable_ims"); XN 0];
+            XL [XB (B "ovroutes"); XL [ XL [XB (B "/hi"); XB (B "/./lang")] ]] ];
+       XL [ XL [XN 0; XN 1; XB (B "GET"); XB (B "/hi"); XL [XL [XB (B "accept-language"); XB (B "de")]]; XB []];
+            XL [XN 0; XN 1; XB (B "GET"); XB (B "/hi");
+                XL [XL [XB (B "accept-language"); XB (B "de")]; XL [XB (B "range"); XB (B "bytes=100-200")]]; XB []] ] ].
+Definition wire416_route_out_v0 : xval :=
+  XL [ XL [XN 200; XL [XL [XB (B "vary"); XB (B "accept-encoding, range, accept-language")]]; XB (B "I|de"); XN 1; XL [XB (B "h0")]];
+       XL [XN 416; XL [XL [XB (B "vary"); XB (B "accept-encoding, range, x-pub")]]; XB (B "ERRPAGE"); XN 1; XL []] ].
+Definition wire416_route_out : xval :=
+  XL [ XL [XN 200; XL [XL [XB (B "vary"); XB (B "accept-encoding, range, accept-language")]]; XB (B "I|de"); XN 1; XL [XB (B "h0")]];
+       XL [XN 416; XL [XL [XB (B "vary"); XB (B "accept-encoding, range, accept-language")]]; XB (B "ERRPAGE"); XN 1; XL []] ].
+
+Lemma wire416_route_v0 :
+  run_vary_wire_ov_v0 wire416_route_history = wire416_route_out_v0 /\ run_vary_wire wire416_route_history = wire416_route_out.
+Proof. split; vm_compute; reflexivity. Qed.
+
+(** the same at the level of [send_v]: the reply advertises the rules of the path it is cached under, the 416 page that
+    replaces it those of the request's own path *)
+Lemma send_ov_v0_wrong_rules rules_of (err416_body : bytes) q :
+  err416_body <> [] ->
+  let rp := finishV (fun _ _ => None) (fst q) (mkFat 200 [] (B "page") SP_FULL true) (own_tuple rules_of (lreq q)) true true in
+  exists w,
+    send_v rules_of (fun _ hs => hs) err416_body true false q (Some (Some (100, 201))) rp = Ok w /\ w_body w <> [] /\
+    assoc (B "vary") (rp_headers rp) = Some (vary_text (rules_of (cpath q))) /\
+    assoc (B "vary") (w_headers w) = Some (vary_text (rules_of (rq_path (fst q)))).
+Proof.
+  intros Hb rp. eexists. split; [reflexivity|]. cbn [w_body w_headers]. split; [exact Hb|]. split.
+  - subst rp. apply (proj1 (finishV_vary (fun _ _ => None) rules_of (fst q) (lreq q) _ true true)). cbn. discriminate.
+  - apply apply_header_settings. exact Hb.
 Qed.
 
 (** ------------------------------------------------------------------------------------------
@@ -237,12 +284,12 @@ Proof. unfold vr_get_by_request. intros ->. reflexivity. Qed.
 
 Section Ims.
   Variable hstate : Type.
-  Variable compute : hstate -> request -> bool -> fat * hstate * list bytes.
+  Variable compute : hstate -> routed -> bool -> fat * hstate * list bytes.
   Variable cache_on : bool.
   Variable ims_on : bool.
   Variable parse_ims : bytes -> option Z.
   Variable sanitize_ok : request -> bool.
-  Variable prime : request -> request.
+  Variable prime : request -> routed.
   Variable negotiate : request -> fat -> option (N * bytes).
   Variable rules_of : bytes -> list rule.
   Variable dbg : bool.
@@ -258,9 +305,9 @@ Section Ims.
   (** the date condition: an entry for the request's key, a request that passed sanitize, GET or HEAD, and a date
       not older than the *entry's* creation minus one second *)
   Definition ims_hit (c : vcache) (now : N) (r0 : request) (k : key) (e : ventry) (c1 : vcache) : Prop :=
-    cache_on = true /\ ims_on = true /\ vlookup (prime r0) c now = ((k, Some e), c1) /\
-    sanitize_ok r0 = true /\ get_or_head (rq_method (prime r0)) = true /\
-    exists v t, header (B "if-modified-since") (prime r0) = Some v /\ parse_ims v = Some t /\
+    cache_on = true /\ ims_on = true /\ vlookup (lreq (prime r0)) c now = ((k, Some e), c1) /\
+    sanitize_ok r0 = true /\ get_or_head (rq_method (lreq (prime r0))) = true /\
+    exists v t, header (B "if-modified-since") (lreq (prime r0)) = Some v /\ parse_ims v = Some t /\
                 ims_fresh t (ve_created e) = true.
 
   (** before the repair 832d735 that was all: the 304 was sent whatever the request's own transformed tuple *)
@@ -270,7 +317,7 @@ Section Ims.
     = Ok (inl ((c1, hs), reply304, [], [])).
   Proof.
     intros (Hc & Hi & L & Hs & Hg & v & t & Hh & Hp & Hf).
-    unfold serveV_phase1_v0, serveV_phase1_gen. rewrite Hc. cbn [negb]. rewrite L, Hs, Hg. cbn [andb].
+    unfold serveV_phase1_v0, serveV_phase1_gen. cbv zeta. rewrite Hc. cbn [negb]. rewrite L, Hs, Hg. cbn [andb].
     rewrite Hi, Hh, Hp, Hf. unfold reply304. rewrite Hi. reflexivity.
   Qed.
 
@@ -287,16 +334,16 @@ Section Ims.
       computed for itself *)
   Lemma not_modified_needs_variant c hs now r0 k e c1 :
     InvV hstate compute rules_of c -> ims_hit c now r0 k e c1 ->
-    (forall p, vr_get_by_request (ve_var e) (prime r0) = Ok (Hit p) ->
+    (forall p, vr_get_by_request (ve_var e) (lreq (prime r0)) = Ok (Hit p) ->
                serveX (c, hs) now r0 = Ok ((c1, hs), reply304, [], [])) /\
-    (forall pos hc, vr_get_by_request (ve_var e) (prime r0) = Ok (Miss pos hc) ->
+    (forall pos hc, vr_get_by_request (ve_var e) (lreq (prime r0)) = Ok (Miss pos hc) ->
        exists st' rp lg, serveX (c, hs) now r0 = Ok (st', rp, lg, [prime r0]) /\
                          own_reply hstate compute negotiate rules_of (prime r0) rp).
   Proof.
     intros I (Hc & Hi & L & Hs & Hg & v & t & Hh & Hp & Hf). split.
     - intros [f vary] Hhit.
-      unfold serveV, serveV_phase1, serveV_phase1_gen. rewrite Hc. cbn [negb]. rewrite L, Hs, Hg. cbn [andb].
-      cbv zeta. rewrite Hi, Hh, Hp, Hf, Hhit. cbn [negb orb andb]. unfold reply304. rewrite Hi. reflexivity.
+      unfold serveV, serveV_phase1, serveV_phase1_gen. cbv zeta. rewrite Hc. cbn [negb]. rewrite L, Hs, Hg. cbn [andb].
+      rewrite Hi, Hh, Hp, Hf, Hhit. cbn [negb orb andb]. unfold reply304. rewrite Hi. reflexivity.
     - intros pos hc Hmiss.
       destruct (vlookup_inv hstate compute rules_of _ _ _ _ _ _ L I) as (I1 & Hk & Hent).
       destruct (Hent e eq_refl) as (_ & _ & Hrefs & _).
@@ -304,8 +351,8 @@ Section Ims.
       { cbn [parked_ok]. split; [exact Hk|]. rewrite (miss_headers _ _ _ _ Hmiss), Hrefs, Hk. reflexivity. }
       destruct (phase2_ok hstate compute cache_on ims_on negotiate rules_of dbg c1 hs now _ I1 Hpk) as (st' & rp & lg & E & _ & Ho & _).
       exists st', rp, lg. split; [|exact Ho].
-      unfold serveV, serveV_phase1, serveV_phase1_gen. rewrite Hc. cbn [negb]. rewrite L, Hs, Hg. cbn [andb].
-      cbv zeta. rewrite Hmiss, andb_false_r. cbn [snd]. rewrite Hc in E. exact E.
+      unfold serveV, serveV_phase1, serveV_phase1_gen. cbv zeta. rewrite Hc. cbn [negb]. rewrite L, Hs, Hg. cbn [andb].
+      rewrite Hmiss, andb_false_r. cbn [snd]. rewrite Hc in E. exact E.
   Qed.
 
   (** ... but the 304 tells the truth to every client whose copy came out of the entry it is decided on:
@@ -370,9 +417,9 @@ Section Ims.
     new_and_cache hstate cache_on negotiate rules_of dbg c1 hs' now r f lg lm_of cached = Ok (st', rp, lg', calls) ->
     dated now c1 (fst st').
   Proof.
-    unfold new_and_cache. destruct (vr_new dbg f r (rules_of (rq_path r))) as [vr|e|]; try discriminate.
+    unfold new_and_cache. cbv zeta. destruct (vr_new dbg f (lreq r) (rules_of (rq_path (lreq r)))) as [vr|e|]; try discriminate.
     destruct (vr_first vr) as [[f0 vary]|e|]; try discriminate.
-    destruct (may_store cache_on (rq_method r) f0); intros H; inversion H; subst; cbn [fst].
+    destruct (may_store cache_on (rq_method (lreq r)) f0); intros H; inversion H; subst; cbn [fst].
     - apply dated_insert. reflexivity.
     - apply dated_refl.
   Qed.
@@ -383,13 +430,12 @@ Section Ims.
   Proof.
     destruct p as [r ok | r ok k position headers]; cbn [serveV_phase2].
     - unfold missV. destruct (compute hs r ok) as [[f hs'] lg0]. apply dated_new_and_cache.
-    - unfold vary_missing. destruct (compute hs r ok) as [[f hs'] lg0].
+    - unfold vary_missing. cbv zeta. destruct (compute hs r ok) as [[f hs'] lg0].
       destruct (vrelookup k c now) as [[k' found'] c2] eqn:L. pose proof (dated_vrelookup now now k c _ _ L) as D.
       destruct found' as [e'|].
-      + destruct (vr_get_by_request (ve_var e') r) as [[p0 | position' headers'] | e | ]; try discriminate.
+      + destruct (vr_get_by_request (ve_var e') (lreq r)) as [[p0 | position' headers'] | e | ]; try discriminate.
         * intros H; inversion H; subst. exact D.
-        * cbv zeta.
-          destruct (wants_cache cache_on (rq_method r) f && (negb (f_spref f =? SP_QUERY) || key_has_query k')
+        * destruct (wants_cache cache_on (rq_method (lreq r)) f && (negb (f_spref f =? SP_QUERY) || key_has_query k')
                     && negb (kvarn_none f)).
           2:{ intros H; inversion H; subst. exact D. }
           destruct (vr_push dbg (ve_var e') f position' headers') as [[vr' [f1 vary1]] | e | ]; try discriminate.
@@ -401,19 +447,18 @@ Section Ims.
   Lemma dated_serve c hs now r0 st' rp lg calls :
     serveX (c, hs) now r0 = Ok (st', rp, lg, calls) -> dated now c (fst st').
   Proof.
-    unfold serveV, serveV_phase1, serveV_phase1_gen. destruct (negb cache_on) eqn:Hc; cbn [snd].
+    unfold serveV, serveV_phase1, serveV_phase1_gen. cbv zeta. destruct (negb cache_on) eqn:Hc; cbn [snd].
     { intros H. eapply dated_phase2. exact H. }
-    destruct (vlookup (prime r0) c now) as [[k found0] c1] eqn:L. pose proof (dated_vlookup now now _ c _ _ L) as D.
+    destruct (vlookup (lreq (prime r0)) c now) as [[k found0] c1] eqn:L. pose proof (dated_vlookup now now _ c _ _ L) as D.
     destruct found0 as [e|].
     2:{ intros H. eapply dated_trans; [exact D|]. eapply dated_phase2. exact H. }
-    destruct (sanitize_ok r0 && get_or_head (rq_method (prime r0))).
+    destruct (sanitize_ok r0 && get_or_head (rq_method (lreq (prime r0)))).
     2:{ intros H. eapply dated_trans; [exact D|]. eapply dated_phase2. exact H. }
-    cbv zeta.
-    destruct (match (if ims_on then match header (B "if-modified-since") (prime r0) with Some v => parse_ims v | None => None end else None)
+    destruct (match (if ims_on then match header (B "if-modified-since") (lreq (prime r0)) with Some v => parse_ims v | None => None end else None)
               with Some t => ims_fresh t (ve_created e) | None => false end
-              && (negb true || match vr_get_by_request (ve_var e) (prime r0) with Ok (Hit _) => true | _ => false end)).
+              && (negb true || match vr_get_by_request (ve_var e) (lreq (prime r0)) with Ok (Hit _) => true | _ => false end)).
     { intros H; inversion H; subst. exact D. }
-    destruct (vr_get_by_request (ve_var e) (prime r0)) as [[[f vary] | position headers] | e0 | ]; try discriminate.
+    destruct (vr_get_by_request (ve_var e) (lreq (prime r0))) as [[[f vary] | position headers] | e0 | ]; try discriminate.
     - intros H; inversion H; subst. exact D.
     - intros H. eapply dated_trans; [exact D|]. eapply dated_phase2. exact H.
   Qed.
@@ -469,12 +514,12 @@ Proof. split; vm_compute; reflexivity. Qed.
     ------------------------------------------------------------------------------------------ *)
 Section Honest.
   Variable hstate : Type.
-  Variable compute : hstate -> request -> bool -> fat * hstate * list bytes.
+  Variable compute : hstate -> routed -> bool -> fat * hstate * list bytes.
   Variable cache_on : bool.
   Variable ims_on : bool.
   Variable parse_ims : bytes -> option Z.
   Variable sanitize_ok : request -> bool.
-  Variable prime : request -> request.
+  Variable prime : request -> routed.
   Variable negotiate : request -> fat -> option (N * bytes).
   Variable rules_of : bytes -> list rule.
   Variable dbg : bool.
@@ -594,12 +639,13 @@ Section Honest.
     left. exists k, e. repeat split; try assumption. lia.
   Qed.
   (** ... or computed and stored in the cache (the date it is given is the time of the step, which is the new entry's) *)
-  Lemma stored_gives_copy c1 hs' now r f lg lm_of cached st' rp lg' calls :
+  Lemma stored_gives_copy c1 hs' now q f lg lm_of cached st' rp lg' calls :
+    let r := lreq q in
     may_store cache_on (rq_method r) f = true ->
-    new_and_cache hstate cache_on negotiate rules_of dbg c1 hs' now r f lg lm_of cached = Ok (st', rp, lg', calls) ->
-    holds_copy (fst st') r f now /\ rp = finishV negotiate r f (own r) (lm_of f) cached.
+    new_and_cache hstate cache_on negotiate rules_of dbg c1 hs' now q f lg lm_of cached = Ok (st', rp, lg', calls) ->
+    holds_copy (fst st') r f now /\ rp = finishV negotiate (fst q) f (own r) (lm_of f) cached.
   Proof.
-    intros Hm. unfold new_and_cache. rewrite vr_new_eq. cbn [vr_first vr_resps]. rewrite Hm.
+    intros r Hm. unfold new_and_cache. cbv zeta. fold r. rewrite vr_new_eq. cbn [vr_first vr_resps]. rewrite Hm.
     intros H; inversion H; subst; clear H. cbn [fst]. split; [|reflexivity].
     left. exists (insert_key r f), (mkVE (mkVaried (rules_of (rq_path r)) [(f, headers_for_request (rules_of (rq_path r)) r)]) now (lifetime_ms f)).
     split; [unfold insert_key; destruct (f_spref f =? SP_QUERY); auto|].
@@ -619,23 +665,24 @@ Section Honest.
     wants_cache cache_on (rq_method r) f && (negb (f_spref f =? SP_QUERY) || key_has_query k) && negb (kvarn_none f)
     && (N.of_nat (length (f_body f)) <? size_limit).
 
-  Lemma pushed_gives_copy c hs now r ok k e position headers st' rp lg calls :
+  Lemma pushed_gives_copy c hs now q ok k e position headers st' rp lg calls :
+    let r := lreq q in
     InvV hstate compute rules_of c -> (k = key_pq r \/ k = key_p r) ->
     pc_find k c = Some e -> vfresh e now = true -> ve_created e <= now ->
     vr_get_by_request (ve_var e) r = Ok (Miss position headers) ->
-    vary_missing hstate compute cache_on ims_on negotiate rules_of dbg c hs now r ok k position headers = Ok (st', rp, lg, calls) ->
-    let f := fst (fst (compute hs r ok)) in
-    rp = finishV negotiate r f (own r) ims_on true /\
+    vary_missing hstate compute cache_on ims_on negotiate rules_of dbg c hs now q ok k position headers = Ok (st', rp, lg, calls) ->
+    let f := fst (fst (compute hs q ok)) in
+    rp = finishV negotiate (fst q) f (own r) ims_on true /\
     (if variant_accepted k r f then holds_copy (fst st') r f (ve_created e) else fst st' = c).
   Proof.
-    intros I Hk F Fr Hd Hmiss. unfold vary_missing, variant_accepted.
-    destruct (compute hs r ok) as [[f hs'] lg0] eqn:C. cbn [fst].
+    intros r I Hk F Fr Hd Hmiss. unfold vary_missing, variant_accepted. cbv zeta. fold r.
+    destruct (compute hs q ok) as [[f hs'] lg0] eqn:C. cbn [fst].
     assert (L : vrelookup k c now = ((k, Some e), c)) by (unfold vrelookup, vget_item; rewrite F, Fr; reflexivity).
     rewrite L. destruct (I k e F) as (S & _ & Hrefs & _).
     assert (Hkp : kpath k = rq_path r) by (destruct Hk as [-> | ->]; [apply kpath_pq | apply kpath_p]).
     destruct (get_by_request_sorted (ve_var e) r S) as [(f0 & _ & _ & Eg) | (_ & LL & G & El & Eg & FL & FG)]; [congruence|].
     assert (Ht : headers_for_request (vr_refs (ve_var e)) r = own r) by (rewrite Hrefs, Hkp; reflexivity).
-    rewrite Eg. cbv zeta.
+    rewrite Eg.
     destruct (wants_cache cache_on (rq_method r) f && (negb (f_spref f =? SP_QUERY) || key_has_query k)
               && negb (kvarn_none f)); cbn [andb].
     2:{ intros H; inversion H; subst; clear H. cbn [fst]. rewrite Ht. split; reflexivity. }
